@@ -129,13 +129,15 @@ def run(ctx):
     okc = False
 
     def ver_from_detect(v):
-        # the detected version, possibly kept in a variable that is None when detection failed (the hand-over is then guarded)
+        # the detected version, possibly kept in a variable that is None - or not bound at all, which no call survives - when detection failed
+        # (the hand-over is then guarded)
         def lv(x):
             x = strip(x)
             return lv(x[2]) + lv(x[3]) if x[0] == "ite" else [x]
         ls = lv(v)
         det = [x for x in ls if call_is(x, f"{DISC}._get_device_version")]
-        return bool(det) and all(strip(x[2][-1]) == ("param", dg.params[1]) for x in det) and all(x in det or x == ("const", None) for x in ls)
+        return bool(det) and all(strip(x[2][-1]) == ("param", dg.params[1]) for x in det) and all(x in det or x == ("const", None) or
+                                                                                                        (x[0] == "top" and isinstance(x[1], str) and x[1].startswith("unbound ")) for x in ls)
     for c in calls:
         a = c[2]
         ipt = strip(a[-3]) if len(a) >= 3 else None
